@@ -92,9 +92,9 @@ class Check:
             specs.append({"name": f"{s[1]}", "src": s, "seed": seed * 10 + i, "steps": steps if i == 0 else (32 if q else 128), "episodes": 2,
                           "max_len": None})
         for j in range(2 if q else 6):  # the same files with scripted-agent settings re-drawn (several TAP start hosts, variances, ...)
-            for f in ("uc7_config.yaml", "uc7_config_tap003.yaml"):
+            for f in ("uc7_config.yaml", "uc7_config_tap003.yaml", "data_manipulation.yaml"):
                 specs.append({"name": f"{f}~settings{seed * 10 + j}", "src": ["variant", {"base": ["shipped", f], "settings_seed": seed * 10 + j, "p_nodes": 1.0}],
-                              "seed": seed * 10 + 5 + j, "steps": 32 if q else 96, "episodes": 2, "max_len": None})
+                              "seed": seed * 10 + 5 + j, "steps": (32 if q else 96) if f.startswith("uc7") else steps, "episodes": 2, "max_len": None})
         for g in range(8 if q else 32):
             sd = seed * 1000 + g
             specs.append({"name": f"gen-{sd}", "src": ["gen", {"seed": sd, "knobs": {"p_random_agent": 0.5}}], "seed": sd, "steps": steps, "episodes": 2})
